@@ -20,6 +20,26 @@ for tc in ET.parse(out).getroot().iter("testcase"):
         passed.add("%s::%s" % (tc.get("classname"), tc.get("name")))
 os.unlink(out)
 missing = sorted(stable - passed)
+if missing and len(missing) <= 12:
+    # wall-clock assertions fail under machine load: give every not-passing test one run of its own
+    def nodeid(t):
+        cls, name = t.split("::", 1)
+        parts = cls.split(".")
+        for k in range(len(parts), 0, -1):
+            f = os.path.join(repo, *parts[:k]) + ".py"
+            if os.path.isfile(f):
+                return "::".join([os.path.join(*parts[:k]) + ".py"] + parts[k:] + [name])
+        return None
+    still = []
+    for t in missing:
+        nid = nodeid(t)
+        r = subprocess.run(["/venv/bin/python", "-m", "pytest", "-q", "-p", "no:cacheprovider", "--timeout=900", nid], cwd=repo, env=env,
+                           stdout=subprocess.PIPE, stderr=subprocess.STDOUT, text=True) if nid else None
+        if r is None or r.returncode != 0:
+            still.append(t)
+        else:
+            passed.add(t)
+    missing = still
 print("stable baseline: %d  passed now: %d  baseline tests not passing: %d" % (len(stable), len(passed), len(missing)))
 for m in missing[:40]:
     print("  NOT PASSING:", m)
